@@ -258,7 +258,10 @@ def gen(cls, idx, rng, tier):
         if rng.random() < .3:
             co += [(m["w"] + 1, 0)]
         kw = dict(vertex_order=vo if rng.random() < .7 else None,
-                  chip_order=co if rng.random() < .7 else None)
+                  chip_order=co if rng.random() < .7 else None,
+                  # "None or iterable": as a list, a tuple, a one-shot
+                  # iterator
+                  order_form=rng.choice(["list", "list", "tuple", "iter"]))
     elif placer == "hilbert":
         kw = dict(breadth_first=rng.random() < .5)
     scaled = None
@@ -478,6 +481,11 @@ def run(case, ctx):
         fn = imp("rig.place_and_route.place." + placer).place
         kw = {k_: ([tuple(c) for c in v] if k_ == "chip_order" and v else v)
               for k_, v in kw.items()}
+        form = kw.pop("order_form", "list")
+        for k_ in ("vertex_order", "chip_order"):
+            if kw.get(k_) is not None and form != "list":
+                ctx.hit("order_given_as_" + form)
+                kw[k_] = tuple(kw[k_]) if form == "tuple" else iter(kw[k_])
     what = "%s(%s)" % (placer, ", ".join(
         "%s=%r" % (k_, v) for k_, v in case["kw"].items()
         if k_ not in ("vertex_order", "chip_order")))
